@@ -331,9 +331,15 @@ def run_creator(out: Outcome, drv):
             months = pd.DatetimeIndex([f"2019-{mm:02d}-15" for mm in range(1, 13)])
             # a second variable on the same grid with many more empty cells (boxes empty for it but not for the first)
             cells_sal = [[(None if rng.random() < 0.55 else F(rng.randint(60, 80), rng.choice([1, 2]))) for _ in lons] for _ in lats]
-            mk = lambda cs: np.array([[[np.nan if c is None else float(c) for c in row] for row in cs]] * 12, dtype="float64")  # noqa: E731
+            # the order in which the file stores its axes is the dataset's business (north-to-south latitude is common):
+            # the logical grid is the same
+            lat_order = list(range(nlat))[::-1] if rng.random() < 0.3 else list(range(nlat))
+            lon_order = list(range(nlon))[::-1] if rng.random() < 0.15 else list(range(nlon))
+            mk = lambda cs: np.array([[[np.nan if cs[i][j] is None else float(cs[i][j]) for j in lon_order] for i in lat_order]] * 12,  # noqa: E731
+                                     dtype="float64")
             ds = xr.Dataset({"temp": (("time", "lat", "lon"), mk(cells)), "sal": (("time", "lat", "lon"), mk(cells_sal))},
-                            coords={"time": months, "lat": [float(x) for x in lats], "lon": [float(x) for x in lons]})
+                            coords={"time": months, "lat": [float(lats[i]) for i in lat_order], "lon": [float(lons[j]) for j in lon_order]})
+            out.tags["creator:lat-descending" if lat_order[0] != 0 else "creator:lat-ascending"] += 1
             path = os.path.join(tmp, f"clim{it}.nc")
             ds.to_netcdf(path, engine="scipy")
             cc = CreatorConfig({"datasets": [{"name": "d", "file_path": path, "variables": {"temp": "temp", "sal": "sal"}}]})
